@@ -28,9 +28,14 @@ type caseRec struct {
 
 const nestedDrainID = "C10-nested-drain"
 
+// awaitUnwindID: inbox/C10-await-abrupt-interrupt-unwind.md. While listed, generated programs contain no THROWING
+// "constructor" getter (they are turned into logging getters); pinned witness 4 keeps exercising it.
+const awaitUnwindID = "C10-await-abrupt-interrupt-unwind"
+
 var (
 	exclOnce   sync.Once
 	exclNested bool
+	exclThrow  bool
 )
 
 // excludeNested reports whether the nested-drain finding is listed: while it is, random generation stays out of its
@@ -42,6 +47,9 @@ func excludeNested() bool {
 		for _, k := range f.Findings {
 			if k.Property == "C10" && k.ID == nestedDrainID {
 				exclNested = true
+			}
+			if k.Property == "C10" && k.ID == awaitUnwindID {
+				exclThrow = true
 			}
 		}
 	})
@@ -77,7 +85,7 @@ func (cr *caseRec) fill() {
 	if cr.Program == nil {
 		return
 	}
-	opts := promref.PrintOpts{NoNative: cr.Cfg.NoNative}
+	opts := promref.PrintOpts{NoNative: cr.Cfg.NoNative, Guard: cr.Program.HasThrowingCtor()}
 	cr.JS = nil
 	for i := range cr.Program.Segs {
 		cr.JS = append(cr.JS, promref.PrintSegment(cr.Program, i, opts))
@@ -256,6 +264,16 @@ func countOps(p *promref.Program, st *core.Stats) {
 		if op.Cls != promref.ClsPromise {
 			st.Inc("op_on_subclass:" + promref.ClsNames[op.Cls])
 		}
+		if op.Ctor != nil {
+			kind := "data:"
+			if op.Ctor.Getter {
+				kind = "getter:"
+			}
+			if op.Ctor.Throws {
+				kind = "throwing-getter:"
+			}
+			st.Inc("own_constructor:" + kind + promref.CtorValNames[op.Ctor.Val])
+		}
 		for _, h := range []*promref.Handler{op.F, op.R} {
 			if h != nil && h.Do != nil {
 				opw(h.Do)
@@ -320,6 +338,15 @@ func run(c *core.Ctx) core.Result {
 	full := !excludeNested()
 	if !full {
 		p.WalkHandlers(func(h *promref.Handler) { h.Native = false })
+	}
+	if exclThrow {
+		for _, seg := range p.Segs {
+			for i := range seg {
+				if seg[i].Ctor != nil {
+					seg[i].Ctor.Throws = false
+				}
+			}
+		}
 	}
 	if !p.Valid() {
 		return core.Result{Verdict: core.Inconclusive, Monitor: "generator-produced-invalid-program", Case: caseRec{Program: p}}
